@@ -20,7 +20,8 @@
    formulations equal on every enumerated case.                                                              *)
 EXTENDS Naturals, Sequences, FiniteSets
 
-CONSTANTS MaxLen        \* all lists up to this length are enumerated for both headers
+CONSTANTS MaxA,         \* Accept-Encoding: all lists up to this length
+          MaxV, MinV    \* X-VGI-Accept-Encoding: all lists of length MinV..MaxV
 
 Tokens == {"z", "g", "i", "u"}
 Codecs == {"z", "g"}
@@ -29,11 +30,12 @@ ServerSets == {<<>>, <<"z">>, <<"g">>, <<"z", "g">>}
 RECURSIVE ListsUpTo(_)
 ListsUpTo(n) == IF n = 0 THEN {<<>>}
                 ELSE LET prev == ListsUpTo(n - 1) IN prev \cup {Append(l, t) : l \in prev, t \in Tokens}
-Lists == ListsUpTo(MaxLen)
+ListsA == ListsUpTo(MaxA)
+ListsV == {l \in ListsUpTo(MaxV) : Len(l) >= MinV}
 
 \* the case space, split so that TLC's workers can share the enumeration: one seed per Accept-Encoding list
-Seeds == {[a |-> a, v |-> <<>>, s |-> <<>>] : a \in Lists}
-Expand(p) == {[a |-> p.a, v |-> v, s |-> s] : v \in Lists, s \in ServerSets}
+Seeds == {[a |-> a, v |-> <<>>, s |-> <<>>] : a \in ListsA}
+Expand(p) == {[a |-> p.a, v |-> v, s |-> s] : v \in ListsV, s \in ServerSets}
 Cases == UNION {Expand(p) : p \in Seeds}
 
 Range(q) == {q[i] : i \in 1..Len(q)}
@@ -41,12 +43,13 @@ Range(q) == {q[i] : i \in 1..Len(q)}
 \* ---------------------------------------------------------------- the statement, declaratively
 Pref(c) == c.v \o c.a                                   \* VGI header first, then the generic header
 Decisive(c, e) == e = "i" \/ e \in Range(c.s)           \* identity is always producible
-DecisiveIdx(c) == {k \in 1..Len(Pref(c)) : Decisive(c, Pref(c)[k])}
 Negotiate(c) ==
-  IF DecisiveIdx(c) = {} THEN "none"
-  ELSE LET k == CHOOSE x \in DecisiveIdx(c) : \A y \in DecisiveIdx(c) : x <= y
-           e == Pref(c)[k]
-       IN IF e = "i" THEN "none" ELSE e
+  LET L == Pref(c)
+      S == Range(c.s)
+      D == {k \in 1..Len(L) : L[k] = "i" \/ L[k] \in S}     \* positions of decisive entries
+  IN IF D = {} THEN "none"
+     ELSE LET k == CHOOSE x \in D : \A y \in D : x <= y       \* the first of them
+          IN IF L[k] = "i" THEN "none" ELSE L[k]
 
 \* admissible announcement headers (a sequence: cases stay JSON friendly)
 Hdr(c) ==
